@@ -25,7 +25,18 @@ impl<'g> Cx<'g> {
             syn::Expr::Path(p) if p.qself.is_none() => self.path_expr(&p.path, exp, e.span(), stmts),
             syn::Expr::Reference(r) => {
                 if r.mutability.is_some() {
-                    return self.bail(e.span(), "`&mut` expression is only supported as the argument of `std::mem::take`");
+                    // `&mut buf[a..b]` in value position (a field of a whitelisted borrowed result type / a whitelisted
+                    // borrowed return value): the snapshot of the sub-slice
+                    let mut inner: &syn::Expr = &r.expr;
+                    while let syn::Expr::Paren(p) = inner {
+                        inner = &p.expr;
+                    }
+                    if let syn::Expr::Index(ix) = inner {
+                        if matches!(&*ix.index, syn::Expr::Range(_)) {
+                            return self.expr(inner, exp, stmts);
+                        }
+                    }
+                    return self.bail(e.span(), "`&mut` expression is only supported as a call argument, in `let x = &mut place` and as `&mut buf[a..b]` of a borrowed result");
                 }
                 self.expr(&r.expr, exp, stmts)
             }
@@ -315,6 +326,8 @@ impl<'g> Cx<'g> {
         match ty {
             Ty::Int(_) | Ty::IntAny => Ok((format!("(RustSem.cast {} {})", w, t), Ty::Int(w))),
             Ty::Bool => Ok((format!("(RustSem.castBool {})", t), Ty::Int(w))),
+            // `i32 as uN`: sign extension, then truncation
+            Ty::SInt(32) => Ok((format!("(RustSem.cast_i32 {} {})", w, t), Ty::Int(w))),
             Ty::Named(n) if self.g.enums.get(&n).map(|e| e.all_unit).unwrap_or(false) => {
                 Ok((format!("(RustSem.cast {} ({}.discr {}))", w, lean_type_name(self.g, &self.ns, &n), t), Ty::Int(w)))
             }
@@ -387,6 +400,8 @@ impl<'g> Cx<'g> {
                     },
                     (Ty::Bool, Ty::Bool) => matches!(op, Eq(_) | Ne(_)),
                     (Ty::Dur, Ty::Dur) => true,
+                    // `i32` against `i32` or a (non-negative) literal: comparison of the `Int`s
+                    (Ty::SInt(32), Ty::SInt(32)) | (Ty::SInt(32), Ty::IntAny) | (Ty::IntAny, Ty::SInt(32)) => true,
                     // `==` / `!=` on data whose `PartialEq` is structural equality of the representation:
                     // byte arrays / vectors, table-mapped types, selected structs and enums
                     (a, b) => {
@@ -694,7 +709,19 @@ impl<'g> Cx<'g> {
                 }
                 let mut places: Vec<Place> = Vec::new();
                 for (a, (pn, pt)) in call_args[idx..].iter().zip(info.params.iter()) {
-                    if info.mut_params.contains(pn) {
+                    if info.ref_ret.as_ref().map(|(_, p)| p == pn).unwrap_or(false) {
+                        // the slice a finder searches (used here only for `is_some()` / `is_none()`): its current value
+                        let mut inner: &syn::Expr = a;
+                        loop {
+                            match inner {
+                                syn::Expr::Reference(r) => inner = &r.expr,
+                                syn::Expr::Paren(p) => inner = &p.expr,
+                                _ => break,
+                            }
+                        }
+                        let (t, _) = self.expr(inner, Some(pt), stmts)?;
+                        args.push_str(&format!(" {}", t));
+                    } else if info.mut_params.contains(pn) {
                         // `&mut cursor` argument: a place (a `&mut impl Read` parameter passed on, or `&mut local`)
                         let pl = self.mut_arg_place(a, pt, stmts)?;
                         let t = self.read(&pl, stmts)?;
@@ -1447,6 +1474,22 @@ impl<'g> Cx<'g> {
                     stmts.push(Stmt::Let(t.clone(), format!("({mns}.find? {} {})", cur, k)));
                     self.write(&pl, format!("({mns}.remove {} {})", cur, k), stmts)?;
                     return Ok((t, Ty::Opt(vt)));
+                }
+            }
+            self.tmp_reset(saved);
+        }
+        // `place.take()` on an `Option` place: the old value, the place keeps `None`
+        if name == "take" && m.args.is_empty() && self.is_place(&m.receiver) {
+            let mut probe: Vec<Stmt> = Vec::new();
+            let saved = self.tmp_mark();
+            if let Ok(pl) = self.place(&m.receiver, &mut probe) {
+                if let Ty::Opt(_) = pl.ty() {
+                    stmts.extend(probe);
+                    let cur = self.read(&pl, stmts)?;
+                    let t = self.fresh();
+                    stmts.push(Stmt::Let(t.clone(), cur));
+                    self.write(&pl, "none".to_string(), stmts)?;
+                    return Ok((t, pl.ty()));
                 }
             }
             self.tmp_reset(saved);
